@@ -171,7 +171,8 @@ PROPS = {
              "classes, then the same summary oracle. non-trivial = >= 2 failure/skip kinds or >= 2 processes (sequential), >= 3 outcome kinds (concurrent); distinct = distinct canonical JSON",
         assumptions=ASSUME_WB + ["MatchSnapshot without values (documented warning) is excluded", "the summary grammar parsed is the NO_COLOR one"],
         stages=[dict(name="summary", run="^TestC20_", quick=500, thorough=5000, shards_quick=4, shards_thorough=16),
-                dict(name="real_process", engine="bb", run="^TestC20BB_", quick=30, thorough=400, shards_quick=4, shards_thorough=16)],
+                dict(name="real_process", engine="bb", run="^TestC20BB_", quick=30, thorough=400, shards_quick=4, shards_thorough=16),
+                dict(name="race", engine="race", run="^TestC20_Concurrent$", quick=200, thorough=3000, shards_quick=2, shards_thorough=8, expect_race_free=True)],
     ),
     "C11": dict(
         rule="case = one test function of a real test program (root package, sub, sub/deep/er) whose body is a generated tree of 1-4 steps per level: calls of the five entry points with Dir in {unset, relative, nested relative, ../up, "
